@@ -47,6 +47,17 @@ impl Watcher {
 	) -> Result<Box<dyn notify::Watcher + Send>, CriticalError> {
 		use notify::{Config, Watcher as _};
 
+		#[cfg(feature = "verif-hooks")]
+		let f = match verif_hooks::try_create(self, f) {
+			Ok(res) => {
+				return res.map_err(|err| CriticalError::FsWatcherInit {
+					kind: self,
+					err: FsWatcherError::Create(err),
+				})
+			}
+			Err(f) => f,
+		};
+
 		match self {
 			Self::Native => {
 				notify::RecommendedWatcher::new(f, Config::default()).map(|w| Box::new(w) as _)
@@ -301,4 +312,43 @@ fn process_event(
 		})?;
 
 	Ok(())
+}
+
+/// Verification hooks (feature `verif-hooks`, off by default).
+///
+/// Lets an external harness substitute the `notify` watcher created by the fs worker with a
+/// recording / fault-injecting one. The factory is per thread, so it only applies to workers
+/// running on a current-thread runtime of the thread that installed it.
+#[cfg(feature = "verif-hooks")]
+pub mod verif_hooks {
+	use std::cell::RefCell;
+
+	use super::Watcher;
+
+	/// Creates a watcher of the given kind delivering to the given handler.
+	pub type Factory = Box<
+		dyn Fn(
+			Watcher,
+			Box<dyn notify::EventHandler>,
+		) -> Result<Box<dyn notify::Watcher + Send>, notify::Error>,
+	>;
+
+	thread_local! {
+		static FACTORY: RefCell<Option<Factory>> = const { RefCell::new(None) };
+	}
+
+	/// Install (or remove) the watcher factory for the current thread.
+	pub fn set_watcher_factory(factory: Option<Factory>) {
+		FACTORY.with(|f| *f.borrow_mut() = factory);
+	}
+
+	pub(super) fn try_create<F: notify::EventHandler>(
+		kind: Watcher,
+		handler: F,
+	) -> Result<Result<Box<dyn notify::Watcher + Send>, notify::Error>, F> {
+		FACTORY.with(|f| match f.borrow().as_ref() {
+			Some(factory) => Ok(factory(kind, Box::new(handler))),
+			None => Err(handler),
+		})
+	}
 }
